@@ -116,8 +116,9 @@ CLAIMS = {
              "operand range (all of ExprNodes.binop_node_classes except & | ^ %, the universe being read from the working tree each run) "
              "with might_overflow set, restores the flag and returns the node (visit_neutral_node / visit_dangerous_node inlined, "
              "visitchildren by contract with a ghost recording the flag); safe_spanning_type returns a C integer or enum type other "
-             "than bint only when might_overflow is false, on every one of its 19 paths (type objects opaque, kind flags as fields). "
-             "Kernel: these two functions.",
+             "than bint only when might_overflow is false, on every one of its 19 paths (type objects opaque, kind flags as fields); "
+             "visit_NameNode marks the entry of every name visited while the flag is set (its own entry, else the scope's), unconditionally. "
+             "Kernel: these three functions.",
         note="Trusted: dv Python front end (strings as interned ids; the substring test `op in '&|^'` decided over the declared operator "
              "universe; user-defined == as an uninterpreted reflexive relation), z3. ASSUMED: consistency of PyrexTypes kind flags (C "
              "integer/enum kinds exclude the other kinds; c_double/c_float are floats; the Builtin fallback types are Python object "
